@@ -292,6 +292,7 @@ class Ctx:
         self._lean_ok = True
         self._lean_msgs: list[str] = []
         self.thorough = tier == "thorough"
+        self._dev_skip = False
 
     # ------------------------------------------------------------------ lean
     def lean_gate(self, extra_modules: list[str] | None = None) -> bool:
@@ -301,6 +302,9 @@ class Ctx:
         failing-input search and finally calls ctx.broken(...) if no failing input was found."""
         pid = self.pid
         mods = [f"AFV.Props.{pid}"] + list(extra_modules or [])
+        if os.environ.get("AFV_DEV_SKIP_LEAN") == "1":  # development only: the run ends with exit 2
+            self._dev_skip = True
+            return True
         ok, out = lake_build(mods + ["afv"])
         self.cov["checker_cmd"] = (
             f"cd /verif/lean && lake build {' '.join(mods)} afv && lake env lean <generated #print axioms file>"
@@ -505,6 +509,9 @@ class Ctx:
         for path, suffix in self._violations:
             print(f"VIOLATION property={self.pid} replay={path}{suffix}")
         sys.stdout.flush()
+        if self._dev_skip:
+            print("DEV RUN (Lean gate skipped): not a verdict", file=sys.stderr)
+            sys.exit(2)
         sys.exit(1 if self._violations else 0)
 
 
